@@ -6,4 +6,4 @@ Extraction "aro_model.ml" conv_anchor step init interp export_with route_count
   tbl_get hkey_of path_hkey hkey_eq_dec pidm_empty new_bgp sess_wire
   change_ops view_get view_set feed_step
   hstep hnew heap_empty read entries obj_get
-  replace_in establish chain_eqb fam_replace_export fam_replace_import.
+  replace_in establish chain_eqb fam_replace_export fam_replace_import fam_init_export fam_dispose.
